@@ -655,8 +655,9 @@ theorem runTask_cases (t : TaskSt) (hb : t.word.completed = false) :
       (runTask t = (polledTask t, .pending, none) ∨ runTask t = (polledTask t, .wokeSelf, none) ∨
        runTask t = (polledTask t, .remoteWoke, none) ∨
        runTask t = (clonedTask t, .pending, none) ∨
-       ∃ o, (o = .ready ∨ o = .panic) ∧ t.script.head? = some o ∧ runTask t = (finishedTask t o, .finished,
-          if t.word.hasWaker && t.word.notSettingWaker then t.slot else none))) := by
+       ∃ tb o k, (tb = t ∨ tb = cloneInc t) ∧ (k = .finished ∨ k = .finishedWoke) ∧
+          runTask t = (finishedTask tb o, k,
+            if t.word.hasWaker && t.word.notSettingWaker then t.slot else none))) := by
   cases hc : t.word.notCancelled
   · exact Or.inl ⟨rfl, runTask_cancelled t hc⟩
   · refine Or.inr ⟨rfl, ?_⟩
@@ -667,8 +668,16 @@ theorem runTask_cases (t : TaskSt) (hb : t.word.completed = false) :
       · exact Or.inr (Or.inl (runTask_wakeSelf t hc hb r hs))
       · exact Or.inr (Or.inr (Or.inr (Or.inl (runTask_clone t hc hb r hs))))
       · exact Or.inr (Or.inr (Or.inl (runTask_remote t hc hb r hs)))
-      · exact Or.inr (Or.inr (Or.inr (Or.inr ⟨.ready, Or.inl rfl, by simp, runTask_ready t hc hb _ r hs (Or.inl rfl)⟩)))
-      · exact Or.inr (Or.inr (Or.inr (Or.inr ⟨.panic, Or.inr rfl, by simp, runTask_ready t hc hb _ r hs (Or.inr rfl)⟩)))
+      · exact Or.inr (Or.inr (Or.inr (Or.inr ⟨t, .wakeReady, .finishedWoke, Or.inl rfl, Or.inr rfl,
+          runTask_wakeReady t hc hb _ r hs (Or.inl rfl)⟩)))
+      · exact Or.inr (Or.inr (Or.inr (Or.inr ⟨t, .wakePanic, .finishedWoke, Or.inl rfl, Or.inr rfl,
+          runTask_wakeReady t hc hb _ r hs (Or.inr rfl)⟩)))
+      · exact Or.inr (Or.inr (Or.inr (Or.inr ⟨cloneInc t, .cloneReady, .finished, Or.inr rfl, Or.inl rfl,
+          runTask_cloneReady t hc hb r hs⟩)))
+      · exact Or.inr (Or.inr (Or.inr (Or.inr ⟨t, .ready, .finished, Or.inl rfl, Or.inl rfl,
+          runTask_ready t hc hb _ r hs (Or.inl rfl)⟩)))
+      · exact Or.inr (Or.inr (Or.inr (Or.inr ⟨t, .panic, .finished, Or.inl rfl, Or.inl rfl,
+          runTask_ready t hc hb _ r hs (Or.inr rfl)⟩)))
 
 /-- `a` is `b` up to the SCHEDULED / SCHEDULING bits -/
 def SameUpToSched (a b : TaskSt) : Prop :=
@@ -750,21 +759,31 @@ theorem removed_facts {e : Exec} (h : Inv e) {id : Nat} {rest : List Nat} (hh : 
 
 /-- what `Task::run` guarantees about a queued task, by kind of outcome -/
 theorem runTask_spec (t : TaskSt) (ht : TInv true t) :
-    (((runTask t).2.1 = .dropped ∨ (runTask t).2.1 = .finished) → TInv false (runTask t).1) ∧
+    (((runTask t).2.1 = .dropped ∨ (runTask t).2.1 = .finished ∨ (runTask t).2.1 = .finishedWoke) →
+        TInv false (runTask t).1) ∧
     (((runTask t).2.1 = .pending ∨ (runTask t).2.1 = .wokeSelf ∨ (runTask t).2.1 = .remoteWoke) →
         TInv true (runTask t).1 ∧ (runTask t).1.word.notCancelled = true ∧
         (runTask t).1.word.scheduled = false) ∧
     ((runTask t).2.1 = .dropped ↔ t.word.notCancelled = false) ∧
     ((runTask t).2.1 ≠ .dropped → (runTask t).1.polls = t.polls + 1) ∧
     ((runTask t).2.1 = .dropped → (runTask t).1.polls = t.polls) := by
-  rcases runTask_cases t (ht.inq_c rfl) with ⟨hc, hr⟩ | ⟨hc, hr | hr | hr | hr | ⟨o, _, _, hr⟩⟩ <;> rw [hr] <;> simp [hc]
+  rcases runTask_cases t (ht.inq_c rfl) with ⟨hc, hr⟩ | ⟨hc, hr | hr | hr | hr | ⟨tb, o, k, htb, hk, hr⟩⟩ <;>
+    rw [hr] <;> simp [hc]
   · exact ⟨droppedTask_inv t ht, by simp [droppedTask, dropRef_polls, taskDropByExecutor_polls]⟩
   · exact ⟨⟨polledTask_inv t ht, by simp [polledTask, hc], by simp [polledTask]⟩, by simp [polledTask]⟩
   · exact ⟨⟨polledTask_inv t ht, by simp [polledTask, hc], by simp [polledTask]⟩, by simp [polledTask]⟩
   · exact ⟨⟨polledTask_inv t ht, by simp [polledTask, hc], by simp [polledTask]⟩, by simp [polledTask]⟩
   · exact ⟨⟨clonedTask_inv t ht, by simp [clonedTask, polledTask, hc], by simp [clonedTask, polledTask]⟩,
       by simp [clonedTask, polledTask]⟩
-  · exact ⟨finishedTask_inv t o ht, by simp [finishedTask, dropRef_polls, taskDropByExecutor_polls]⟩
+  · have htb' : TInv true tb := by
+      rcases htb with rfl | rfl
+      · exact ht
+      · exact cloneInc_inv t ht
+    have hp : tb.polls = t.polls := by rcases htb with rfl | rfl <;> simp [cloneInc]
+    have hfi := finishedTask_inv tb o htb'
+    have hfp : (finishedTask tb o).polls = t.polls + 1 := by
+      simp [finishedTask, dropRef_polls, taskDropByExecutor_polls, hp]
+    rcases hk with rfl | rfl <;> simp [hfi, hfp]
 
 /-- facts of a loop body whose poll returned Pending, possibly followed by a (local or remote) schedule -/
 theorem StepFacts.ofPend {e : Exec} (h : Inv e) {id : Nat} {rest : List Nat} (hh : e.hot = id :: rest)
@@ -808,7 +827,7 @@ theorem StepFacts.ofRemoved {e : Exec} (h : Inv e) {id : Nat} {rest : List Nat} 
       (({ e with tasks := e.tasks.set id (runTask t).1, hot := rest, woken := wk } : Exec),
         decide ((runTask t).2.1 ≠ .dropped)) := by
   obtain ⟨s1, s2, s3, s4, s5⟩ := runTask_spec t ht
-  have hinv := (removed_facts h hh hg (runTask t).1 (s1 hk) wk).2
+  have hinv := (removed_facts h hh hg (runTask t).1 (s1 (hk.elim Or.inl (fun h' => Or.inr (Or.inl h')))) wk).2
   have hnd := h.q.hnd
   rw [hh, List.nodup_cons] at hnd
   have hnc : id ∉ e.cold := fun hc => h.q.disj id (by simp [hh]) hc
@@ -858,7 +877,7 @@ theorem tickStep_facts {e : Exec} (h : Inv e) {id : Nat} {rest : List Nat} (hh :
   · -- dropped
     have hk : (runTask t).2.1 = .dropped ∨ (runTask t).2.1 = .finished := Or.inl hr2
     have := StepFacts.ofRemoved h hh hg ht hk e.woken
-    have heq := (removed_facts h hh hg t' (hr1 ▸ s1 hk) e.woken).1
+    have heq := (removed_facts h hh hg t' (hr1 ▸ s1 (hk.elim Or.inl (fun h' => Or.inr (Or.inl h')))) e.woken).1
     rw [hr1, hr2] at this
     have he : removeTask ((makeCold e id).setTask id t') id =
         ({ e with tasks := e.tasks.set id t', hot := rest, woken := e.woken } : Exec) := by
@@ -911,9 +930,66 @@ theorem tickStep_facts {e : Exec} (h : Inv e) {id : Nat} {rest : List Nat} (hh :
   · -- finished
     have hk : (runTask t).2.1 = .dropped ∨ (runTask t).2.1 = .finished := Or.inr hr2
     have := StepFacts.ofRemoved h hh hg ht hk ((makeCold e id).woken ++ w.toList)
-    have heq := (removed_facts h hh hg t' (hr1 ▸ s1 hk) ((makeCold e id).woken ++ w.toList)).1
+    have heq := (removed_facts h hh hg t' (hr1 ▸ s1 (hk.elim Or.inl (fun h' => Or.inr (Or.inl h')))) ((makeCold e id).woken ++ w.toList)).1
     rw [hr1, hr2] at this
     rw [heq]; simpa using this
+  · -- finishedWoke: woke itself (back to the hot tail), then finished: removed from the HOT list
+    have hnd0 : (runTask t).2.1 ≠ .dropped := by rw [hr2]; simp
+    have hnc : t.word.notCancelled = true := by
+      cases hn : t.word.notCancelled
+      · exact absurd (s3.mpr hn) hnd0
+      · rfl
+    have hmid : ({ t with word := TaskState.unschedule t.word } : TaskSt) =
+        { t with word := { t.word with scheduled := false, scheduling := t.word.scheduling } } := by simp
+    have htm : TInv true ({ t with word := TaskState.unschedule t.word } : TaskSt) := by
+      rw [hmid]; exact sched_bits_inv _ t false _ ht
+    obtain ⟨p1, p2, p3, p4, p5, p6⟩ := pend_facts h hh hg _ htm (by simpa using hnc) (by simp)
+    have hE1 := scheduleLocal_inv p1 id
+    have hget1 : (scheduleLocal ((makeCold e id).setTask id { t with word := TaskState.unschedule t.word }) id).get? id
+        = some { t with word := TaskState.unschedule t.word } := by rw [scheduleLocal_get? p1]; exact p3
+    have hl1 := get?_lt hget1
+    have hf1 := scheduleLocal_fields p1 id
+    have ht' : TInv false t' := hr1 ▸ s1 (Or.inr (Or.inr hr2))
+    obtain ⟨w1, hw1⟩ := scheduleLocal_hot p1 id
+    have hndr := h.q.hnd
+    rw [hh, List.nodup_cons] at hndr
+    have hnd1 := hE1.q.hnd
+    have hcd1 := hE1.q.cnd
+    have hout : ∀ l : List Nat, l.Nodup → id ∉ l.erase id := fun l hl hm => ((hl.mem_erase_iff).mp hm).1 rfl
+    have hinvF := hE1.update hget1 (QStep.remove hE1.q id) false
+      ⟨fun h' => (h'.elim (hout _ hnd1) (hout _ hcd1)).elim, fun h' => by cases h'⟩ ht'
+      ({ removeTask ((scheduleLocal ((makeCold e id).setTask id { t with word := TaskState.unschedule t.word }) id).setTask id t') id
+          with woken := (makeCold e id).woken ++ w.toList } : Exec)
+      rfl rfl rfl rfl
+      (fun _ hc => absurd hc (hout _ hcd1)) (fun _ hc => absurd hc (hout _ hcd1)) (fun x _ _ hx => hx) hE1.p
+    refine ⟨hinvF, ?_, ?_, ?_, ?_, ⟨t', ?_, Or.inl hr1.symm⟩, ?_, ?_, ?_, ?_, ?_⟩
+    · refine ⟨w1.erase id, ?_⟩
+      show (scheduleLocal _ id).hot.erase id = rest ++ w1.erase id
+      rw [hw1, p2, List.erase_append_right _ hndr.1]
+    · intro x hx
+      show ((scheduleLocal _ id).setTask id t').get? x = e.get? x
+      rw [get?_setTask_ne _ _ hx, scheduleLocal_get? p1, p4 x hx]
+    · simp [hnc]
+    · intro hf'; cases hf'
+    · show ((scheduleLocal _ id).setTask id t').get? id = some t'
+      exact get?_setTask_self _ hget1
+    · rw [s4 hnd0]; simp
+    · intro hi
+      rw [inMap_iff] at hi
+      rcases hi with hi | hi
+      · exact absurd hi (hout _ hnd1)
+      · exact absurd hi (hout _ hcd1)
+    · intro x hx
+      rw [inMap_iff] at hx
+      have : x ∈ (scheduleLocal ((makeCold e id).setTask id { t with word := TaskState.unschedule t.word }) id).hot ∨
+          x ∈ (scheduleLocal ((makeCold e id).setTask id { t with word := TaskState.unschedule t.word }) id).cold :=
+        hx.elim (fun h' => Or.inl (List.mem_of_mem_erase h')) (fun h' => Or.inr (List.mem_of_mem_erase h'))
+      rw [scheduleLocal_mem p1, ← inMap_iff, p5] at this; exact this
+    · intro x hne hx
+      rw [← p5, inMap_iff, ← scheduleLocal_mem p1 id x] at hx
+      rw [inMap_iff]
+      exact hx.elim (fun h' => Or.inl ((List.mem_erase_of_ne hne).mpr h')) (fun h' => Or.inr ((List.mem_erase_of_ne hne).mpr h'))
+    · exact ⟨hf1.2.2.1.trans p6.1, hf1.2.2.2.2.2.trans p6.2.1, hf1.2.2.2.1.trans p6.2.2⟩
 
 theorem tickStep_inv {e : Exec} (h : Inv e) {id : Nat} {rest : List Nat} (hh : e.hot = id :: rest) :
     Inv (tickStep e id).1 := by
